@@ -704,7 +704,7 @@ pub fn gen_window_case(r: &mut Rng, enum_idx: Option<u64>) -> LedgerCase {
             // then lands on an affiliate holding nothing, until the repurchase
             let sold = if s == 0 && who == seller && r.chance(20) { Decimal::new(100, 0) } else { rand_amount(r, 30, 3) };
             let sfl = if r.chance(12) {
-                let v = if r.chance(20) { Decimal::ZERO } else { -rand_amount(r, 300, 2) };
+                let v = if r.chance(20) { Decimal::ZERO } else { -rand_amount(r, 300, 4) };
                 Some(SFLInput { superficial_loss: LessEqualZeroDecimal::try_from(v).unwrap(), force: r.chance(50) })
             } else {
                 None
